@@ -329,7 +329,7 @@ impl Check for C19 {
         vec![
             "10 virtual s bound for contacting listed peers after the first good reply and for answering a dial-in handshake",
             "the 'any reply body parses without panic' half is sampled only through this generator",
-            "the number of peers dialled is not fixed by the statement: min(k, 5) distinct listed peers are demanded",
+            "the number of peers dialled is not fixed by the statement: min(k, 5, 11 - connections the client is interested in at the reply) distinct listed peers are demanded",
         ]
     }
     fn generate(&self, profile: &str, seed: u64) -> Plan {
@@ -392,7 +392,25 @@ impl Check for C19 {
         // T2
         match &first_good {
             Some((seq, t0, l)) => {
-                let want = l.iter().collect::<BTreeSet<_>>().len().min(5);
+                // the client only fills the connection slots its interesting peers leave free
+                // (11 in all): what it was interested in around the reply bounds the demand
+                let mut busy = 0usize;
+                let mut before = 0usize;
+                for e in &v.out.entries {
+                    if let Ev::Snapshot(s) = &e.ev {
+                        let c = s.peers.iter().filter(|p| p.am_interested).count();
+                        if e.t_ms < *t0 {
+                            before = c;
+                        } else if e.t_ms <= *t0 + 1 {
+                            busy = busy.max(c);
+                        }
+                    }
+                }
+                busy = busy.max(before);
+                if busy >= 11 {
+                    vd.probe("good_reply_with_all_slots_busy");
+                }
+                let want = l.iter().collect::<BTreeSet<_>>().len().min(5).min(11usize.saturating_sub(busy));
                 let limit = t0 + 10_000;
                 if v.out.end_ms >= limit {
                     let got: BTreeSet<&String> = dials.iter().filter(|(t, a)| *t >= *t0 && *t <= limit && l.contains(a)).map(|(_, a)| a).collect();
